@@ -143,3 +143,91 @@ theorem shortest_unique {h : Bytes} {mt n : Nat} (hmt : mt < 8) (hn : n < 2 ^ 64
   exact isHead_unique hs.1 e.1 (Nat.le_antisymm (hs.2 _ e.1) (e.2 _ hs.1))
 
 end WebPkg.Cbor
+
+namespace WebPkg.Cbor
+open WebPkg.Spec.Cbor
+
+/-- heads are self-delimiting: the same bytes cannot start with two different heads -/
+theorem isHead_prefix_unique {h h' x y : Bytes} {mt n mt' n' : Nat} (a : IsHead h mt n) (b : IsHead h' mt' n')
+    (e : h ++ x = h' ++ y) : h = h' ∧ mt = mt' ∧ n = n' ∧ x = y := by
+  have d1 := decodeHead_of_isHead a x
+  have d2 := decodeHead_of_isHead b y
+  rw [e, d2] at d1
+  simp at d1
+  obtain ⟨rfl, rfl, rfl⟩ := d1
+  have := List.append_cancel_right e
+  exact ⟨this, rfl, rfl, rfl⟩
+
+theorem decodeOfType_sound {t : Nat} {bs rest : Bytes} {n : Nat} (h : decodeOfType t bs = some (n, rest)) :
+    ∃ hd, IsHead hd t n ∧ bs = hd ++ rest := by
+  unfold decodeOfType at h
+  cases hd : decodeHead bs with
+  | none => simp [hd] at h
+  | some v =>
+    obtain ⟨mt, m, r⟩ := v
+    simp only [hd] at h
+    by_cases e : mt = t
+    · simp [e] at h
+      obtain ⟨rfl, rfl⟩ := h
+      subst e
+      exact isHead_of_decodeHead hd
+    · simp [e] at h
+
+theorem decodeOfType_complete {t n : Nat} {hd : Bytes} (h : IsHead hd t n) (rest : Bytes) :
+    decodeOfType t (hd ++ rest) = some (n, rest) := by
+  simp [decodeOfType, decodeHead_of_isHead h rest]
+
+theorem decodeOfType_wrong_type {t mt n : Nat} {hd : Bytes} (h : IsHead hd mt n) (hne : mt ≠ t) (rest : Bytes) :
+    decodeOfType t (hd ++ rest) = none := by
+  simp [decodeOfType, decodeHead_of_isHead h rest, hne]
+
+theorem decodeBytesOfType_sound {t : Nat} {bs v rest : Bytes} (h : decodeBytesOfType t bs = some (v, rest)) :
+    ∃ item, IsString t item v ∧ bs = item ++ rest := by
+  unfold decodeBytesOfType at h
+  cases hd : decodeOfType t bs with
+  | none => simp [hd] at h
+  | some p =>
+    obtain ⟨n, r⟩ := p
+    simp only [hd] at h
+    by_cases h1 : 2 ^ 63 ≤ n
+    · simp [h1] at h
+    · by_cases h2 : r.length < n
+      · simp [h1, h2] at h
+      · simp [h1, h2] at h
+        obtain ⟨rfl, rfl⟩ := h
+        obtain ⟨hdr, hh, e⟩ := decodeOfType_sound hd
+        have hlen : (r.take n).length = n := by simp; omega
+        refine ⟨hdr ++ r.take n, ⟨hdr, by rw [hlen]; exact hh, rfl⟩, ?_⟩
+        rw [e, List.append_assoc, List.take_append_drop]
+
+theorem decodeBytesOfType_complete {t : Nat} {item v : Bytes} (h : IsString t item v) (hl : v.length < 2 ^ 63)
+    (rest : Bytes) : decodeBytesOfType t (item ++ rest) = some (v, rest) := by
+  obtain ⟨hd, hh, rfl⟩ := h
+  unfold decodeBytesOfType
+  rw [List.append_assoc, decodeOfType_complete hh]
+  have : ¬ (2 ^ 63 ≤ v.length) := by omega
+  simp [this]
+
+/-- a proper prefix of a complete string item is never accepted -/
+theorem decodeBytesOfType_truncated {t : Nat} {item v : Bytes} (h : IsString t item v) (k : Nat) (hk : k < item.length) :
+    decodeBytesOfType t (item.take k) = none := by
+  cases hd : decodeBytesOfType t (item.take k) with
+  | none => rfl
+  | some p =>
+    exfalso
+    obtain ⟨v', rest⟩ := p
+    obtain ⟨item', ⟨h', hh', e'⟩, e⟩ := decodeBytesOfType_sound hd
+    obtain ⟨h0, hh0, e0⟩ := h
+    -- item = item.take k ++ item.drop k = h' ++ v' ++ rest ++ item.drop k
+    have e1 : h0 ++ v = h' ++ (v' ++ rest ++ item.drop k) := by
+      rw [← e0]
+      conv => lhs; rw [← List.take_append_drop k item]
+      rw [e, e']; simp
+    obtain ⟨rfl, _, hlen, e2⟩ := isHead_prefix_unique hh0 hh' e1
+    have := congrArg List.length e2
+    have hk' : (item.take k).length = k := by simp; omega
+    have := congrArg List.length e
+    simp [e', e0] at *
+    omega
+
+end WebPkg.Cbor
